@@ -36,6 +36,8 @@ Proof. exact unlock_refused. Qed.
 Goal True. idtac "ASSUMPTIONS-OF C02_unlock_refused". Abort.
 Print Assumptions C02_unlock_refused.
 Example C02_unlock_refused_nonvacuous :
-  exists m, aget (mgrs (fst (run (init_db 1000000 1) c02_demo))) 7 = Some m
-            /\ get_locked_lock (fst (run (init_db 1000000 1) c02_demo)) m 103 = None /\ m_locked m = 2.
-Proof. eexists. repeat split; vm_compute; reflexivity. Qed.
+  match aget (mgrs (fst (run (init_db 1000000 1) c02_demo))) 7 with
+  | Some m => get_locked_lock (fst (run (init_db 1000000 1) c02_demo)) m 103 = None /\ m_locked m = 2
+  | None => False
+  end.
+Proof. vm_compute. split; reflexivity. Qed.
